@@ -183,7 +183,8 @@ def gen_bias(rng, name, req, m_now):
             p['params'] = {'value': rng.choice([0, PU // 4, PU // 2, PU, 2 * PU])}
         else:
             p['function'] = 'expFromZero'
-            p['params'] = {'alpha': rng.choice([PU // 100, PU // 10]), 'multiplier': rng.choice([PU // 2, PU]), 'queryNumber': rng.randint(0, 20)}
+            p['params'] = {'alpha': rng.choice([PU // 100, PU // 10, PU // 8, -(PU // 8)]), 'multiplier': rng.choice([PU // 2, PU, -(PU // 2)]),
+                           'queryNumber': rng.choice([rng.randint(0, 20), rng.randint(-6, 6)])}
             for k_ in list(p['params']):       # parameters may be left out (they default to 0)
                 if rng.random() < 0.2:
                     del p['params'][k_]
